@@ -154,13 +154,15 @@ def handleCF : List String → String
     | _, _, _, _ => "bad-op"
   | _ => "bad-op"
 
-/-! `pp <allow> <deny> <fallback> <network> <peer> <claim> <tbl>` — the PROXY protocol listener wrapper (see
+/-! `pp <allow> <deny> <fallback> <network> <peer> <claim> <tbl> <via>` — the PROXY protocol listener wrapper (see
 harness/internal/c10/pp.go).  The table is the `req` table of the peer string (sbits = allow, hbits = deny),
 plus a row for the zoned host when netip accepts it.
 Answer `provision-error` | `refused` | `addr=<hex> rd=<ok|err>`. -/
 
 def handlePP : List String → String
-  | [allowF, denyF, fb, network, peer, claim, tbl] =>
+  | [allowF, denyF, fb, network, peer, claim, tbl, via] =>
+    -- via: j = configured from JSON, c = from a Caddyfile block; the same wrapper either way
+    if via != "j" && via != "c" then "bad-op" else
     let fbB : Option (Option Bytes) := if fb == "-" then some none else
       match Hex.decode fb with | some b => (if b.isEmpty then none else some (some b)) | none => none
     let claimB : Option (Option Bytes) := if claim == "-" then some none else (Hex.decode claim).map some
@@ -236,6 +238,6 @@ def handle : List String → String
 def witnessLines : List String :=
   [-- Witness.denied_peer_never_believed_full_fails: proxy_protocol wrapper, deny fe80::/10, fallback_policy USE,
    -- tcp peer [fe80::1%eth0]:1 claiming 6.6.6.6:7777 in a PROXY v1 header
-   "C10 pp . fe80::/10 555345 746370 5b666538303a3a3125657468305d3a31 362e362e362e363a37373737 303a3a:3a3a:-:0:0000;303a3a31:3a3a31:-:0:0010;38303a3a:38303a3a:-:0:0000;38303a3a31:38303a3a31:-:0:0000;3a3a:3a3a:-:0:0000;3a3a31:3a3a31:-:0:0010;6538303a3a:6538303a3a:-:0:0000;6538303a3a31:6538303a3a31:-:0:0000;666538303a3a:666538303a3a:-:1:0001;666538303a3a31:666538303a3a31:-:1:0001;666538303a3a312565746830:666538303a3a312565746830:-:0:0000"]
+   "C10 pp . fe80::/10 555345 746370 5b666538303a3a3125657468305d3a31 362e362e362e363a37373737 303a3a:3a3a:-:0:0000;303a3a31:3a3a31:-:0:0010;38303a3a:38303a3a:-:0:0000;38303a3a31:38303a3a31:-:0:0000;3a3a:3a3a:-:0:0000;3a3a31:3a3a31:-:0:0010;6538303a3a:6538303a3a:-:0:0000;6538303a3a31:6538303a3a31:-:0:0000;666538303a3a:666538303a3a:-:1:0001;666538303a3a31:666538303a3a31:-:1:0001;666538303a3a312565746830:666538303a3a312565746830:-:0:0000 j"]
 
 end CaddyModel.C10
